@@ -57,6 +57,17 @@ claim("C05",
       "Coq proof (characterisation of the chain check, nested tree induction for all depths, unfolding of every command) + regenerated exit codes + lockstep fault-injection correspondence with byte snapshots",
       "DESIGN.md 3 C05")
 
+claim("C03",
+      "Theorems, for every tree, history, pattern list, matcher and primitive: verify names as altered exactly the visited files whose bytes no longer hash to the FIRST 'original' digest recorded for them (in that entry's own format, in the history the path is routed to) and as new exactly the visited files without such a reference -- hence never an unaltered file (no false alarm), and modification times do not occur in the model at all; the exit code is selected from the reported sets as verify 11 > 21 > 10 > 0, diff 10 > 21 > 0, create 11 > 10 > 30 > 0 with 0 only when nothing is missing (codes are obligations on the regenerated constants); what is visited is exactly the non-ignored part of the tree (traversal theorems of C02/C12) and ignored paths are filtered from the missing report. Tied to the code by lockstep runs over sealed trees (flat / nested, 1-3 generations, patterns) followed by 0-3 mutations (same-size bit flip with kept mtime, rewrite, delete file / empty dir, add, touch) and verify, diff, create; an independent oracle derives the expected exit code and named paths from the manifests read back with another XML reader.",
+      "PARTIAL: the end-to-end statement (create; mutate; verify) over the composed commands is not one theorem; the composition create->history->verify is carried by the correspondence and the oracle.",
+      "Coq proof (closed form of the verify fold, case analysis of the exit-code selection) + regenerated exit codes + lockstep mutation correspondence + independent oracle",
+      "DESIGN.md 3 C03")
+claim("C09",
+      "Theorems, for every tree, history and option combination: verify -dh is total -- it always ends with an exit code, never an internal error; the exit code is 12 (obligation on the regenerated constant) exactly when some format failed and every judged format (those of the root history's root hashes, default c4) is among the failed ones, else 0; a recorded directory entry -- of a sub-folder in the history it is routed to, or a root hash of any generation of the root history, so entries directly in the root folder count -- fails exactly when the content or structure hash computed now over the non-ignored entries differs or the folder is gone. Tied to the code by lockstep runs (flat folders, nested histories with differing formats, -n generations, one mutation at any depth incl. the root folder) and by an oracle that recomputes every recorded directory hash independently.",
+      "PARTIAL: 'unchanged tree gives 0 / any change gives 12' additionally needs that the recorded hashes are those of the sealed tree (create and verify -dh share `dirhash`; checked by correspondence) and collision freedom of the primitive (not provable).",
+      "Coq proof (totality, closed form of the exit decision, characterisation of a failing entry) + lockstep mutation correspondence + independent directory-hash oracle",
+      "DESIGN.md 3 C09")
+
 PENDING = "check under construction (planned: proof + correspondence, see DESIGN.md section 3)"
 
 
